@@ -5,21 +5,43 @@ CFG = {
     "extra_bins": ["tbp"],
     "technique": "Lean 4 proof (decision-table theorems over the abstract invocation, induction over the SBOM lists) + "
                  "differential correspondence against a real buildpack_main! executable",
-    "level_text": "Theorems (all invocations: any argument count, API version, payloads, SBOM lists, pre-existing output state): "
+    "level_text": "Theorems (all invocations: any argument count, API version, payloads, SBOM lists, pre-existing output state, and any "
+                  "environment - every CNB_* variable unset, set to any text, or set to bytes that are not Unicode: the model's Vars carries "
+                  "values, not presence bits): "
                   "detect pass+plan => exit 0 and the plan written with the buildpack's plan; pass => exit 0, plan untouched; fail => exit 100, "
                   "plan untouched; any detect-phase error => on_error exactly once, exit not in {0,100}; build without error => exit 0 and "
                   "launch.toml / store.toml / each build and launch SBOM file written exactly for the provided parts, all others untouched; "
                   "any build-phase error => on_error once, exit != 0; unsupported/malformed/missing API, wrong executable name, wrong argument "
-                  "count or a missing mandatory variable => detect/build code never runs, exit != 0, nothing written; on_error <= 1 always and "
-                  "= 0 when exit is 0 or 100. Partial: the theorems are about the model `runtime`; it is tied to libcnb_runtime by "
-                  "Gen (exit codes, supported API) and by running the real executable over the quantifier's product.",
+                  "count or a missing mandatory variable => detect/build code never runs, exit not in {0,100}, nothing written; "
+                  "mandatory_variable_missing / mandatory_variable_unset: if CNB_BUILDPACK_DIR or CNB_TARGET_OS / ARCH / DISTRO_NAME / DISTRO_VERSION "
+                  "is not provided, then for EVERY value of every other variable no phase code runs, exit not in {0,100}, no output touched; "
+                  "target_variable_missing_is_an_error: with the phase determined a missing target variable => on_error exactly once; "
+                  "outcome_independent_of_values: forgetting all values (keeping which variables are provided) never changes the outcome; "
+                  "on_error <= 1 always and = 0 when exit is 0 or 100. Partial: the theorems are about the model `runtime`; it is tied to libcnb_runtime by "
+                  "Gen (exit codes, supported API, the list of env::var reads of context_target / read_buildpack_dir with the shape of each: "
+                  "required `.map_err(..)?` / optional `.ok()` / defaulted; any other shape, e.g. a requirement conditional on another variable, "
+                  "is TIE-BROKEN) and by running the real executable over the quantifier's product.",
     "level_note": "Partial (process runtime): process exit, env::args on non-UTF-8 argv, getcwd, the file system and the real lifecycle are "
                   "runtime behaviour, sampled not proved. The abstraction (abstract Invocation -> concrete directories, environment, "
                   "buildpack.toml text; observation of exit status / marker files / output files) is harness code (harness/src/bin/c05.rs, "
                   "tbp.rs). Trusted: Lean kernel; my reading of the property in Spec/RuntimeTable.lean (mandatory variables = buildpack dir, "
-                  "target os/arch/distro name/version; supported API 0.10); translator; harness.",
+                  "target os/arch/distro name/version, each judged by itself: provided = set to Unicode text, any text; a value that is not "
+                  "Unicode counts as missing; a missing target variable behind a determined phase must reach on_error exactly once, a missing "
+                  "buildpack directory is the API gate - exit != 0 without on_error is accepted there; supported API 0.10); translator; harness. "
+                  "Values are sampled from fixed lists (18 OS, 10 arch, 8 variant, 9 distro name, 9 distro version values incl. empty, "
+                  "case/whitespace variants of `windows`, non-ASCII, non-UTF-8), not enumerated: a requirement that depends on a value outside "
+                  "the lists is caught by the translator's shape check, not by the sampling.",
     "shrink": [],
-    "rule": "quick: every gate value at every gate position (5 executable names x 13 buildpack.toml states x 0..4 arguments x 8 variable "
+    "rule": "environment values (field 3 = buildpack-dir kind + five target variables as unset / hex bytes + extra CNB_* variables): "
+            "val1 = every value of every variable (18 OS + 9 arch + 7 variant + 8 distro name + 8 distro version) x every single variable unset "
+            "(and none) x detect/build; val2 = 18 OS x 10 arch values, all set, other values rotating; bpdir = 9 ways of writing "
+            "CNB_BUILDPACK_DIR (plain, space, non-ASCII, trailing slash, dot-dot, symlink, relative, empty = cwd, non-UTF-8) x every single "
+            "variable unset x OS in {linux, windows} x detect/build, and x 8 buildpack.toml classes x 3 names x 2 argument counts; extra = 6 sets "
+            "of CNB_* variables the runtime does not read x every single variable unset x {linux, windows}; valpairs = every pair of unset "
+            "variables x 9 OS values (spellings of windows, linux, empty) [thorough: x every value of every non-OS variable with OS=windows, and "
+            "valsets = all 64 sets of unset variables x 18 OS values x 2 pre-states]; valrnd = 1500 [thorough 20000] random environments "
+            "(each variable unset 1 in 12, else drawn from its list) x random gates/behaviour/layout. "
+            "quick: every gate value at every gate position (5 executable names x 13 buildpack.toml states x 0..4 arguments x 8 variable "
             "sets, later dimensions at a representative value, twice: passing and failing buildpack), context inputs (cwd x platform dir x "
             "buildpack plan x 8 variable sets x 3 names), executable layout (symlink to a neutrally named file / separate copy / one neutral real "
             "file with detect, build and the wrong name linked to it / real file bin/build with the others linked to it = packaged layout / "
@@ -36,9 +58,14 @@ CFG = {
             "from written-with-the-empty-document. thorough: additionally the literal product executable name (3) x argument count (5) x "
             "buildpack.toml class (8) x presence of each of the 6 CNB_* variables (64) x behaviour (6 / 18, payload variants rotating) x "
             "pre-existing outputs (none / all). "
-            "non-trivial = all gates open (the phase function is reached and the behaviour decides the outcome); distinct = distinct input line",
-    "trusted_base": ["Spec/RuntimeTable.lean is my reading of the property text and of buildpack.md (argument counts, exit 100)",
-                     "Gen.exit_* regenerated from libcnb/src/exit_code.rs, Gen.supportedApi from libcnb/src/lib.rs",
+            "non-trivial = all gates open (every mandatory variable set to Unicode text; the phase function is reached and the behaviour decides the outcome); distinct = distinct input line",
+    "trusted_base": ["Spec/RuntimeTable.lean is my reading of the property text and of buildpack.md (argument counts, exit 100; `provided` = set to "
+                     "Unicode text, judged per variable; missing CNB_BUILDPACK_DIR = API gate without an on_error requirement)",
+                     "Gen.exit_* regenerated from libcnb/src/exit_code.rs, Gen.supportedApi from libcnb/src/lib.rs, Gen.contextTargetReads / "
+                     "Gen.buildpackDirRead from libcnb/src/runtime.rs (translator part `runtime`: recognises exactly `env::var(N).map_err(Error::X)?`, "
+                     "`.ok()`, `.unwrap_or..(literal)`; counts every env::var/var_os/vars mention in runtime.rs; anything else is TIE-BROKEN). "
+                     "Environment reads outside runtime.rs (Platform::from_path, tracing) are not covered by the census",
+                     "Driver/C05.lean decides text vs not-Unicode with core `String.fromUTF8?`; the buildpack directory's text is symbolic ($BP@kind)",
                      "harness/src/bin/tbp.rs (test buildpack) and c05.rs (materialisation of an abstract invocation, observation)"],
     "assumptions": COMMON_ASSUME + ["a write to a path fails iff a directory sits at that path (the only write failure exercised)",
                                     "argv is valid UTF-8 (env::args panics otherwise; not modelled)"],
